@@ -355,7 +355,8 @@ def main(argv):
     # failing input on the real code; without one the verdict stays UNDECIDED
     base_names = set()
     if os.path.exists(os.path.join(HERE, 'baselines', prop + '.json')):
-        base_names = set(json.load(open(os.path.join(HERE, 'baselines', prop + '.json'))))
+        _bj = json.load(open(os.path.join(HERE, 'baselines', prop + '.json')))
+        base_names = set(_bj['names'] if isinstance(_bj, dict) else _bj)
     searched = set()
     for r, o in unknowns:
         qn = r['qualname']
